@@ -571,15 +571,18 @@ def rule_docstring_ast(rep: Report, rid="C13.ast") -> None:
 
 
 def _rows_list(b: BuilderNF, br: Branch):
-    """(rows list ref, row loop id) built in a table branch."""
+    """(rows list ref, row loop id) built in a table branch: the list whose content is one element per TableRow token
+    (comprehension or append loop)."""
     I = b.I
     for n, ctx in nf.iter_nodes(br.tree):
         if n[0] == "alloc":
             o = I.obj(n[1])
-            if isinstance(o, HList) and len(o.segs) == 1 and o.segs[0][0] == "loop":
-                lid = o.segs[0][1]
-                if b.c(I.loops[lid].get("iter")) == items(b.node, "TableRow"):
-                    return n[1], lid
+            if isinstance(o, HList):
+                segs = nf.list_content(I, n[1], b.tree)
+                if len(segs) == 1 and segs[0][0] == "loop" and len(segs[0][2]) == 1 and segs[0][2][0][0] == "e":
+                    lid = segs[0][1]
+                    if b.c(I.loops[lid].get("iter")) == items(b.node, "TableRow"):
+                        return n[1], lid
     return None, None
 
 
